@@ -274,6 +274,37 @@ def report(chk, results, rules):
     return total
 
 
+def check_normalized_small(chk, F, rule):
+    """normalized() keeps the truth table, on the depth-1 part of the family (used by C07: every lift ends with
+    normalized())"""
+    chk.rule(rule, "Semantic::normalized, which every lift applies last, keeps the truth table (all k-of-n thresholds, "
+                   "n <= 3, over atoms incl. constants, plus nested representatives)")
+    L = lib(F)
+    full = family("quick")
+    fam = [p for p in full if p[0] != "thresh" or all(s[0] != "thresh" for s in p[2])][:1200]
+    # nested thresholds next to constants: where flattening and constant folding interact
+    fam += [p for p in full if p[0] == "thresh" and any(s[0] == "thresh" for s in p[2])
+            and any(s[0] in ("T", "F") or (s[0] == "thresh" and any(x[0] in ("T", "F") for x in s[2])) for s in p[2])][:1500]
+    fam += [("thresh", 2, [("thresh", 2, [A, B]), ("thresh", 1, [A, T_]), O5]),
+            ("thresh", 3, [A, ("thresh", 2, [O5, O9]), ("thresh", 2, [A, B])]),
+            ("thresh", 1, [("thresh", 1, [A, B]), ("thresh", 2, [B, F_])])]
+    bad = []
+    for p in fam:
+        try:
+            r = from_lib(L.call("normalized", p))
+        except Unsupported as e:
+            chk.fail(rule, "unanalysable", "unanalysable: %s" % e, kind="unanalysable")
+            return
+        except Panic as e:
+            bad.append((repr(p), "panic: %s" % e))
+            continue
+        if not PS.equivalent(r, p):
+            bad.append((repr(p), "normalized gives %r with a different truth table" % (r,)))
+    chk.obligation(rule, not bad, "normalized", "%d policies; first: %r" % (len(bad), bad[:1]), where="src/policy/semantic.rs",
+                   detail=bad[:10])
+    chk.floor(rule, "policies normalized", len(fam), 1000)
+
+
 def check_semantic(chk, F):
     import multiprocessing as mp
     chk.rule("R18.1", "normalized: same truth table, idempotent, normal form (no constants or singleton thresholds below "
